@@ -249,7 +249,8 @@ pub fn pool() -> Vec<PV> {
         Str(s("Alice")),
         Str(s("Bob")),
         StrSlice(s("knows")),
-        StrSlice(s("")),
+        // (the empty string is a FIXED atom of the specification - conformsTo "" and the empty-text shapes -
+        // and therefore not a pool value: a pool value must never coincide with a fixed atom)
         Str(s("h\u{e9}llo w\u{f6}rld \u{4e16}\u{754c}")), // NFC, non-ASCII
         Str(s("MARKER-7f3a9c-unique-payload")),
         Str("x".repeat(300)),
@@ -313,6 +314,17 @@ pub fn selfcheck() -> Result<(), String> {
         let b = v.expected_cbor();
         if let Some(j) = seen.insert(b, i) {
             return Err(format!("pool entries {} and {} have equal bytes", j, i));
+        }
+    }
+    // a pool value must never coincide with a FIXED atom of the specification (the specification gives
+    // distinct atoms distinct digests)
+    let mut fixed: Vec<Vec<u8>> = ["", "n", "m", "x", "d", "v1", "v2", "c1", "c2", "T", "junk", "f", "p"].iter().map(|t| w::text(t)).collect();
+    fixed.push(w::tag(1, &w::uint(1_600_000_000)));
+    fixed.push(w::tag(1, &w::f16_bits(0x3e00)));
+    fixed.push(w::tag(1, &w::nint(-172800)));
+    for f in fixed {
+        if let Some(j) = seen.get(&f) {
+            return Err(format!("pool entry {} coincides with a fixed atom of the specification", j));
         }
     }
     Ok(())
